@@ -134,4 +134,15 @@ mod verif_c20_fold {
         kani::cover!(s3 > 0.5 && s3 < 1.0, "COVER:interior");
         kani::cover!(true, "COVER:reach");
     }
+
+    /// Thorough tier: 4 groups, the 4 adjacent-transposition + rotation generators of S4.
+    #[kani::proof]
+    #[kani::unwind(6)]
+    fn c20_canon_order_independent_4() {
+        let (a, b, c, d) = (conf(), conf(), conf(), conf());
+        let s = canon(&[a, b, c, d]);
+        assert!(same_bits(&s, &canon(&[b, a, c, d])), "OBL:C20.fold.order_independent");
+        assert!(same_bits(&s, &canon(&[b, c, d, a])), "OBL:C20.fold.order_independent");
+        kani::cover!(true, "COVER:reach");
+    }
 }
